@@ -44,9 +44,12 @@ def gen_spec(rng):
       ops.append(['slow', {'delay': rng.choice([0.0, 0.001, 0.003])}])
     else:
       ops.append([k])
-  return {'n': n, 'rec': rng.randint(1, 5), 'ops': ops,
+  spec = {'n': n, 'rec': rng.randint(1, 5), 'ops': ops,
           'agg': rng.choice(['sum', 'collect', 'sum', None]),
           'fused': rng.random() < 0.6, 'num_threads': 0}
+  if spec['agg'] is not None and rng.random() < 0.3:
+    spec['agg2'] = rng.choice(['sum', 'collect'])  # two aggregating stages
+  return spec
 
 
 FIDELITY_TESTS = [
@@ -107,7 +110,7 @@ def run_sharded(spec, W, K, ibs, delay_rng):
         [s.address for s in servers], call_timeout=60, iterate_batch_size=ibs)
     pool.wait_until_alive(deadline_secs=60, minimum_num_workers=W)
     rq = queue.SimpleQueue()
-    want_agg = spec.get('agg') is not None
+    want_agg = spec.get('agg') is not None or spec.get('agg2') is not None
     outs = list(orchestrate.sharded_pipelines_as_iterator(
         pool, c16lib.define_pipeline, spec, num_shards=K,
         result_queue=rq if want_agg else None))
@@ -143,6 +146,18 @@ def run_interleaved(spec, W, buf, with_pool):
         pipeline, master_server=master, resources=resources) as runner:
       outs = list(iter(runner.result_queue))
     returned = list(runner.result_queue.returned)
+    # Each aggregating stage reports its own aggregate through its own queue;
+    # fold the upstream ones into the single final result for the comparison.
+    from ml_metrics._src.chainables import transform as _t
+    upstream = {}
+    for st in runner.stages[:-1]:
+      for r in st.result_queue.returned:
+        if isinstance(r, _t.AggregateResult) and r.agg_result:
+          upstream.update(r.agg_result)
+    if upstream and len(returned) == 1 and isinstance(returned[0], _t.AggregateResult):
+      merged = dict(upstream)
+      merged.update(returned[0].agg_result or {})
+      returned = [_t.AggregateResult(merged, agg_state=returned[0].agg_state)]
     acquired = list(pool.acquired_workers) if pool else []
     return outs, returned, acquired
   finally:
